@@ -202,8 +202,9 @@ class EnvModel:
                     yield from rec(st2, n + 1)
         yield from rec(st, 0)
 
-    def range(self, st, fam, prefix, contract=None, descending=False):
-        """generator of (state, [(rest_key_terms, value)]) for present entries under a prefix, ascending."""
+    def range(self, st, fam, prefix, contract=None, descending=False, lo=None, hi=None):
+        """generator of (state, [(rest_key_terms, value)]) for present entries under a prefix, ascending.
+        lo / hi: optional bounds (inclusive / exclusive) on a single numeric rest-key part, compared in storage byte order."""
         I = self.I
         c = contract or st.contract
         store = self.store_of(st, c)
@@ -220,6 +221,24 @@ class EnvModel:
             i, e = cands[n]
             from .summaries import z3_and
             cond = z3_and(self.key_eq(e.key[:len(prefix)], prefix), e.present)
+            if lo is not None or hi is not None:
+                rest = e.key[len(prefix):]
+                if len(rest) != 1 or rest[0][0] != 'n':
+                    raise Gap('range bounds on a key that is not a single numeric part')
+                kv_ = rest[0][1]
+                declex = fam[0] == 'B'
+
+                def less(a, b):
+                    if not declex:
+                        return a < b
+                    if isinstance(a, int) and isinstance(b, int):
+                        return str(a) < str(b)
+                    return dec_lex_less(a, b)
+                if lo is not None:
+                    c_lo = less(kv_, lo)
+                    cond = z3_and(cond, (not c_lo) if isinstance(c_lo, bool) else z3.Not(c_lo))
+                if hi is not None:
+                    cond = z3_and(cond, less(kv_, hi))
             for st2, t in I.truth(st, cond):
                 yield from rec(st2, n + 1, acc + [(e.key[len(prefix):], e.val)] if t else acc)
         yield from rec(st, 0, [])
@@ -611,11 +630,19 @@ def install(S):
         b = I.val(st, args[0])
         for st2, lo in S.conc(st, args[1]):
             for st3, hi in S.conc(st2, args[2]):
-                if lo.variant != 0 or hi.variant != 0:
-                    raise Gap('Bucket::range with bounds')
+                def bound(o):
+                    if o.variant == 0:
+                        return None
+                    v_ = I.val(st3, o.fields[0])
+                    while isinstance(v_, Ref):
+                        v_ = I.val(st3, v_)
+                    if isinstance(v_, JsonV) and (isinstance(v_.v, int) or is_sym(v_.v)):
+                        return v_.v
+                    raise Gap('Bucket::range bound that is not the JSON text of an integer: %r' % (v_,))
+                lo_, hi_ = bound(lo), bound(hi)
                 order = I.val(st3, args[3])
                 desc = isinstance(order, Agg) and order.vname == 'Descending'
-                for st4, items in E.range(st3, b.fields[0], b.fields[1], descending=desc):
+                for st4, items in E.range(st3, b.fields[0], b.fields[1], descending=desc, lo=lo_, hi=hi_):
                     def kv(key):
                         # bucket keys of this code base are JSON encodings of a u64 / string when they have one part
                         if len(key) == 1 and key[0][0] == 'n':
